@@ -93,6 +93,15 @@ OPS = {
         op("swap-decoder-marks", "fire", [(D, "                a=lidx, a_stereo=lstereo, a_pos=rings_made[lidx],\n                b=ridx, b_stereo=rstereo, b_pos=rings_made[ridx],",
                                            "                a=lidx, a_stereo=rstereo, a_pos=rings_made[lidx],\n                b=ridx, b_stereo=lstereo, b_pos=rings_made[ridx],")], ["S2"]),
         op("same-mark-dropped", "fire", [(E, "    if (lbond.order != 1) or all(b.stereo is None for b in (lbond, rbond)):", "    if (lbond.order != 1) or lbond.stereo == rbond.stereo:")], ["S1", "S2"]),
+        op("adjacent-descents-instead-of-inversions", "fire", [(E, "        for j in range(i + 1, len(perm)):\n            if perm[i] > perm[j]:\n                count += 1", "        for j in range(i + 1, min(i + 2, len(perm))):\n            if perm[i] > perm[j]:\n                count += 1")], ["S4"]),
+        op("parity-of-even", "fire", [(E, "    return count % 2 != 0  # if odd permutation, should invert chirality", "    return count % 2 == 0")], ["S4"]),
+        op("inversions-counted-with-ge", "silent", [(E, "            if perm[i] > perm[j]:\n                count += 1", "            if not perm[i] <= perm[j]:\n                count += 1")]),
+        op("inversions-by-combinations", "silent", [(E, "    count = 0\n    for i in range(len(perm)):\n        for j in range(i + 1, len(perm)):\n            if perm[i] > perm[j]:\n                count += 1\n", "    count = sum(1 for i in range(len(perm)) for j in range(i + 1, len(perm)) if perm[i] > perm[j])\n")]),
+        op("ring-flag-for-one-end-only", "fire", [(M, "        self._ring_bond_flags[a] = True\n        self._ring_bond_flags[b] = True\n", "        self._ring_bond_flags[a] = True\n")], ["S5"]),
+        op("ring-flag-from-first-out-bond", "fire", [(M, "        return self._ring_bond_flags[src]", "        out = self._adj_list[src]\n        return bool(out) and out[0].ring_bond")], ["S5"]),
+        op("ring-flag-computed-over-all-out-bonds", "silent", [(M, "        return self._ring_bond_flags[src]", "        return any(b.ring_bond for b in self._adj_list[src])")]),
+        op("closing-digit-mark-dropped-when-equal", "fire", [(S, "    lorder, lstereo = smiles_to_bond(lbond_char)\n    rorder, rstereo = smiles_to_bond(rbond_char)", "    lorder, lstereo = smiles_to_bond(lbond_char)\n    rorder, rstereo = smiles_to_bond(None if rbond_char == lbond_char else rbond_char)")], ["S6"]),
+        op("closure-marks-swapped-ends", "fire", [(S, "        a=latom.index, a_stereo=lstereo, a_pos=lpos,\n        b=ratom.index, b_stereo=rstereo,", "        a=latom.index, a_stereo=lstereo, a_pos=lpos,\n        b=ratom.index, b_stereo=lstereo,")], ["S6"]),
     ],
     "C05": [
         op("missing-matching-not-checked", "fire", [(M, "        if matching is None:\n            return False\n", "")], ["K1"]),
